@@ -47,6 +47,7 @@ type Script struct {
 	Retry     bool   `json:"retry"`
 	Consumers int    `json:"consumers"`
 	Dies      []int  `json:"dies"`
+	Hold      int    `json:"hold"` // > 0: storage call number Hold of the FIRST incarnation is held until all else is quiet, then the process dies
 	Steps     []Step `json:"steps"`
 }
 
@@ -96,6 +97,7 @@ type runner struct {
 	inc     int
 	shutCh  chan struct{}
 	callsPerInc []int
+	holdUsed bool
 }
 
 func (r *runner) gateFor(inc int, req string) *gate {
@@ -177,7 +179,12 @@ func (r *runner) startInc() bool {
 	if len(r.callsPerInc) < len(r.sc.Dies) {
 		die = r.sc.Dies[len(r.callsPerInc)]
 	}
+	r.waitHold()
 	r.inc = r.store.NewIncarnation(die)
+	if r.sc.Hold > 0 && len(r.callsPerInc) == 0 && !r.holdUsed {
+		r.holdUsed = true
+		r.store.SetHold(r.sc.Hold)
+	}
 	r.rec.add(Event{Ev: "start", Inc: r.inc})
 	sid := component.MustNewID("vstore")
 	qcfg := exporterhelper.NewDefaultQueueConfig()
@@ -225,8 +232,17 @@ func (r *runner) startInc() bool {
 	}
 }
 
+// waitHold: a held storage call (Script.Hold) resolves by itself once everything else is quiet; a new incarnation
+// must not begin before that.
+func (r *runner) waitHold() {
+	for t := 0; t < 400 && r.store.Holding(); t++ {
+		time.Sleep(5 * time.Millisecond)
+	}
+}
+
 // abandon stops the goroutines of a dead (or finished) incarnation; nothing it does is recorded.
 func (r *runner) abandon() {
+	r.waitHold()
 	r.store.Kill()
 	r.mu.Lock()
 	for _, g := range r.gates {
